@@ -25,10 +25,12 @@ def run_jobs(jobs: list[dict], order_seed: int = 0, nproc: int | None = None, ti
         return []
     nproc = min(nproc or (os.cpu_count() or 4), len(jobs))
     chunks = [jobs[i::nproc] for i in range(nproc)]
-    env = dict(os.environ, PYTABLEAUX_VERIF='1', PYTABLEAUX_VERIF_ORDER=str(order_seed), PYTHONDONTWRITEBYTECODE='1')
+    env = dict(os.environ, PYTABLEAUX_VERIF='1', PYTABLEAUX_VERIF_ORDER=str(order_seed), PYTHONDONTWRITEBYTECODE='1', PYTHONHASHSEED='0')
+
+    prefix = common.no_aslr_prefix()      # decided once, before the threads start
 
     def work(chunk):
-        p = subprocess.run([PY, '-m', 'harness.tabworker'], input='\n'.join(json.dumps(j) for j in chunk) + '\n',
+        p = subprocess.run(prefix + [PY, '-m', 'harness.tabworker'], input='\n'.join(json.dumps(j) for j in chunk) + '\n',
                            capture_output=True, text=True, cwd=str(ROOT), env=env, timeout=timeout)
         outs = [json.loads(l) for l in p.stdout.splitlines() if l.strip()]
         if len(outs) != len(chunk):
